@@ -6,6 +6,7 @@ CONSTANTS
   MaxDepth = 3
   MaxBlock = 3
   Kinds <- AllKinds
+  Tiny = FALSE
   Rich = TRUE
 INVARIANT DesignFaithful
 INVARIANT DeviationsExplain
